@@ -377,7 +377,9 @@ def case_replay(c, cs, upto=None):
     g = lambda arr, i: arr[i] if i < len(arr) else "<missing>"
     return {"ops": [c.ops[i] for i in idx],
             "impl": [g(c.impl, i) for i in idx],
-            "model": [g(c.model, i) for i in idx]}
+            "model": [g(c.model, i) for i in idx],
+            # finding flags the model attached to each line (listed deviations an oracle must skip)
+            "flags": [(c.flags[i] if i < len(c.flags) else []) for i in idx]}
 
 
 def shrink_case(ctx, domain, drv_args, ops, pred, hx_env=None, budget=60):
@@ -433,6 +435,20 @@ def decide_standard(ctx, corrs, finding_texts=None, require_flag_for_verdict=Tru
                         "replay_cmd": "printf '%%s\\n' <ops> | bin/hx run %s  vs  lean/.lake/build/bin/drv %s %s" % (domain, domain, " ".join(drv_args))})
             ctx.mismatch_first = (domain, drv_args, c, i)
             ctx.pending_mismatch = rep
+            # further mismatching cases (first mismatch of each), so that the Spec oracle can look for
+            # one it can decide instead of giving up on the first
+            more, seen_cases = [], {cs[0]}
+            for j in c.mismatch:
+                cj = case_of(c, j)
+                if cj[0] in seen_cases:
+                    continue
+                seen_cases.add(cj[0])
+                rj = case_replay(c, cj, upto=j)
+                rj.update({"correspondence": domain, "drv_args": list(drv_args), "mismatches": len(c.mismatch)})
+                more.append(rj)
+                if len(more) >= 40:
+                    break
+            ctx.pending_mismatch_more = getattr(ctx, "pending_mismatch_more", []) + more
         mism = set(c.mismatch)
         for i, fl in enumerate(c.flags):
             if not fl or i in mism:
@@ -472,6 +488,12 @@ def report_mismatch(ctx, spec_violated=None):
     if rep is None:
         return
     why = spec_violated(rep) if spec_violated else None
+    if not why and spec_violated:
+        for other in getattr(ctx, "pending_mismatch_more", []):
+            w = spec_violated(other)
+            if w:
+                rep, why = other, w
+                break
     if why:
         ctx.violation("implementation violates the property: " + why, rep, tag="impl")
     else:
